@@ -142,6 +142,12 @@ class Unifier:
             def visit_IfExp(self, n):
                 self.generic_visit(n)
                 t = n.test
+                body, orelse = n.body, n.orelse
+                # a negated test selects the other branch
+                while isinstance(t, ast.UnaryOp) and isinstance(t.op, ast.Not):
+                    t, body, orelse = t.operand, orelse, body
+                if t is not n.test:
+                    n = ast.copy_location(ast.IfExp(test=t, body=body, orelse=orelse), n)
                 # isinstance(<placeholder of known class>, K)
                 if isinstance(t, ast.Call) and norm(t.func) == "isinstance" and len(t.args) == 2:
                     cls = u.class_of(t.args[0])
